@@ -182,6 +182,8 @@ inductive Action where
   | get (v : Nat)
   | dropVar (v : Nat)
   | addDep (e child : Opnd) (cb : Bool)
+  | arm (k : Nat)
+  | setMaxHeight (n : Nat)
   | stabilise
   | isStable
   | stats
@@ -212,6 +214,8 @@ def parseAction (toks : List String) : Option Action :=
   | ["get", v] => (.get ·) <$> parseIdx "v" v
   | ["dropvar", v] => (.dropVar ·) <$> parseIdx "v" v
   | ["adddep", e, c, cb] => do pure (.addDep (← parseOpnd e) (← parseOpnd c) (cb == "cb"))
+  | ["arm", k] => (.arm ·) <$> k.toNat?
+  | ["setmaxheight", k] => (.setMaxHeight ·) <$> k.toNat?
   | ["stabilise"] => some .stabilise
   | ["isstable"] => some .isStable
   | ["stats"] => some .stats
